@@ -6,6 +6,7 @@ UF = [("ruint::algorithms::DoubleWord::mul", "uf::mul_stub"),
       ("ruint::algorithms::DoubleWord::muladd2", "uf::muladd2_stub")]
 UFDOM = ("FULL operand pairs; 64x64->128 multiply abstracted as an uninterpreted function with axioms 0*x=0, 1*x=x, "
          "commutativity, functional consistency, x*y <= (2^64-1)^2, x*y >= max(x,y) for x,y >= 1")
+INV_NARROW = [1, 2, 3, 7, 8]   # probed: seconds; 16 bits and above do not finish (five 64-bit Newton steps)
 MIX = [("ruint::Uint::wrapping_mul", "stubs::wrapping_mul_mix"),
        ("ruint::Uint::overflowing_mul", "stubs::overflowing_mul_mix")]
 
@@ -53,4 +54,7 @@ def harnesses():
         out.append(H("c02_inv_ring_even_%d" % b, "C02", "c02::inv_ring_even::<%d,%d>" % (b, l), unwind=l + 3,
                      tier="quick", inst="Uint<%d,%d>" % (b, l), domain="every even value (and BITS = 0)", free_bits=b,
                      fns=["inv_ring"], timeout=600))
+    for b in INV_NARROW:
+        out.append(H("c02_inv_ring_narrow_%d" % b, "C02", "c02::inv_ring_narrow::<%d>" % b, unwind=4, tier="quick",
+                     inst="Uint<%d,1>" % b, domain="every value of the width", free_bits=b, fns=["inv_ring"], timeout=1200))
     return out
